@@ -47,6 +47,9 @@ type Server struct {
 	seq     int
 	Started map[string]int // key -> seq of request start (for barrier checks)
 	Ended   map[string]int
+	// ByNS (opt-in, default off): key objects outside namespace "default" as <namespace>/Kind/name
+	// instead of folding every namespace into Kind/name
+	ByNS bool
 }
 
 type Fault struct {
@@ -95,9 +98,10 @@ func (s *Server) RoundTrip(req *http.Request) (*http.Response, error) {
 	for len(parts) > 0 && (parts[0] == "api" || parts[0] == "v1") {
 		parts = parts[1:]
 	}
-	var plural, name string
+	var plural, name, ns string
 	switch {
 	case len(parts) >= 3 && parts[0] == "namespaces":
+		ns = parts[1]
 		plural = parts[2]
 		if len(parts) >= 4 {
 			name = parts[3]
@@ -121,6 +125,9 @@ func (s *Server) RoundTrip(req *http.Request) (*http.Response, error) {
 		}
 	}
 	key := kind + "/" + name
+	if s.ByNS {
+		key = NSKey(ns, kind, name)
+	}
 	if s.Delay != nil {
 		s.mu.Lock()
 		s.seq++
@@ -380,4 +387,24 @@ func (s *Server) Client() *kube.Client {
 		Client:               fake.CreateHTTPClient(s.RoundTrip),
 	}
 	return &kube.Client{Factory: tf}
+}
+
+// NSKey is the key of an object under ByNS: Kind/name in namespace "default" (or none),
+// <namespace>/Kind/name elsewhere.
+func NSKey(ns, kind, name string) string {
+	if ns == "" || ns == "default" {
+		return kind + "/" + name
+	}
+	return ns + "/" + kind + "/" + name
+}
+
+// PutNS stores an object of the given namespace (ByNS servers).
+func (s *Server) PutNS(ns, kind, name string, fields map[string]string) {
+	o := Object(kind, name, fields)
+	if ns != "" {
+		o["metadata"].(map[string]interface{})["namespace"] = ns
+	}
+	s.mu.Lock()
+	s.Objs[NSKey(ns, kind, name)] = o
+	s.mu.Unlock()
 }
